@@ -17,6 +17,30 @@ def Adjacent (a b : Cell) : Prop :=
 instance (a b : Cell) : Decidable (Adjacent a b) := by
   unfold Adjacent; exact inferInstance
 
+/-! ### Matrix-product chain: the specified structure -/
+
+/-- parent of site `i` in the path graph `0 - 1 - … - (n-1)` rooted at `r` -/
+def chainParent (r i : Nat) : Option Nat :=
+  if i < r then some (i + 1) else if r < i then some (i - 1) else none
+
+/-- children of site `i` (the root lists its left neighbour first) -/
+def chainChildren (n r i : Nat) : List Nat :=
+  if i < r then (if 0 < i then [i - 1] else [])
+  else if r < i then (if i + 1 < n then [i + 1] else [])
+  else (if 0 < r then [r - 1] else []) ++ (if r + 1 < n then [r + 1] else [])
+
+/-- dict (insertion) order: the root, the sites to its left from right to left, the sites to its right -/
+def chainOrder (n r : Nat) : List Nat :=
+  r :: ((List.range r).reverse ++ List.range' (r + 1) (n - 1 - r))
+
+/-- which axis of the input tensor of site `i` points to the neighbouring site `j` -/
+def toward (i j : Nat) : Axis := if j < i then .left else .right
+
+/-- the specified leg order of site `i`: the leg to the parent, the legs to the children, the open
+    legs, each named by the axis of the input tensor `[left, right, open…]` it must be -/
+def chainLegs (n r : Nat) (p : Nat → Nat) (i : Nat) : List Axis :=
+  ((chainParent r i).toList ++ chainChildren n r i).map (toward i) ++ (List.range (p i)).map Axis.phys
+
 /-! ### Trees -/
 
 mutual
